@@ -4,6 +4,7 @@ enumerator; no codec of the analysed program is executed."""
 from __future__ import annotations
 
 import re
+import ast
 import typing as t
 
 from .facts import AnalysisError
@@ -56,6 +57,12 @@ def struct_fmt(eng: Engine, tm) -> t.Optional[Fmt]:
     """term denoting a struct.Struct object -> its format"""
     if tm[0] == "classconst":
         tm = eng.classconst_value(tm)
+    if tm[0] == "attr" and tm[1][0] == "mod" and tm[1][1] in eng.prog.modules:
+        # module level constant  _X = struct.Struct("...")  that is assigned once
+        mi = eng.prog.modules[tm[1][1]]
+        g = eng.prog.resolve_global(mi, tm[2])
+        if g and g[0] == "const" and g[2] not in mi.rebound and isinstance(g[3], ast.Call):
+            tm = eng._eval_in_module(g[3], eng.prog.modules[g[1]])
     if tm[0] == "call" and tm[1] == ("ext", "struct.Struct") and tm[2] and is_const(tm[2][0]) and isinstance(tm[2][0][1], str):
         return Fmt(tm[2][0][1])
     return None
